@@ -349,3 +349,21 @@ pub fn msg_from_json(v: &serde_json::Value) -> Message<'static> {
         ref_classify(a, t, &d)
     }
 }
+
+
+// ---------------------------------------------------------------------------------------------------------
+// The implementation's own codec, taken as given by the transport-level properties (C15-C18): "that message's frame
+// encoding" and "its decoding" are whatever Frame/Message conversion and Frame::from_bytes/to_bytes produce; whether
+// those are right is decided by C01-C05, not by the transport checks.
+
+/// `Frame::from(message).to_bytes_with_newline()`; falls back to the reference encoding if that panics.
+pub fn impl_wire(m: &Message<'_>) -> Vec<u8> {
+    let mm = own(m);
+    crate::util::catch(move || flipdot_core::Frame::from(mm).to_bytes_with_newline()).unwrap_or_else(|_| ref_wire(m))
+}
+
+/// `Frame::from_bytes(line)` then `Message::from`: Some(Ok(message)) / Some(Err(debug text)) / None if it panicked.
+pub fn impl_decode_msg(line: &[u8]) -> Option<Result<Message<'static>, String>> {
+    let l = line.to_vec();
+    crate::util::catch(move || flipdot_core::Frame::from_bytes(&l).map(|f| own(&Message::from(f))).map_err(|e| format!("{:?}", e))).ok()
+}
